@@ -5,7 +5,7 @@ CONSTANTS
   Ops = {o1, o2, o3}
   Kind <- KindDef2
   FdOf <- FdDef
-  Dir <- DirR
+  Dir <- DirRW
   Fds = {1, 2}
   MaxLen = 14
   Eager = TRUE
